@@ -195,7 +195,24 @@ def fill(claim, na):
           'swap/permute/compress reach the returned value; norm tracking and JW string in '
           'apply_local_op. That the transformed state equals the dense image is not decided.',
           'accessor read-sets are a frozen table (ACCESSOR_READS in sa/rules/c09.py)', 'C09')
-    for pid in ['C04', 'C11',
+    claim('C04', 'sibling agreement between each @use_cython pair: Cython parse tree of the .pyx '
+          '(parser of the repository venv) lowered to python ast, then signature / effect-set / '
+          'flag / raise / mutated-argument comparison; staleness guard on the generated C++',
+          PARTIAL + 'The pair list is derived from the decorators on every run (16 today). For '
+          'each pair: the replacement exists under the bound name; parameter names, order and '
+          'defaults agree; the sets of attributes updated on each parameter and on the returned '
+          'object agree (same-module helpers inlined, setter calls normalised; table of benign '
+          'differences with reasons); stated sortedness constants agree; raised exception classes '
+          'agree; the sets of arguments that may be written in place agree (pointer-level C '
+          'helpers via a frozen write-through table). The python caller handles the trivial cases '
+          'the compiled tensordot worker does not. Cached-claim typestate (C02) also runs on the '
+          'pyx functions. Second sentence of the property: every source line cited in the '
+          'generated _npc_helper.cpp equals the current .pyx line, otherwise the compiled '
+          'configuration runs code that is not in the tree (reported as stale extension). '
+          'Numerical equality of BLAS-batched and numpy results is not decided.',
+          'trusts Cython.Compiler.Parsing, the lowering in sa/pyx.py (C pointer helpers are '
+          'opaque), and that the .so was built from the .cpp next to it', 'C04')
+    for pid in ['C11',
                 'C13', 'C16', 'C19']:
         na(pid, 'static rule planned in DESIGN.md but not built yet (work in progress); not '
            'claimed until its check exists')
